@@ -1312,37 +1312,79 @@ Definition expected (svc : N) (s : bytes) : list event * N :=
 Definition LIMITER_BURST : nat := 4.
 Definition count_ty (ty : N) (es : list event) : nat := length (filter (fun e => beq (ev_ty e) ty) es).
 
-(* one datagram: (events, return code, tokens left) *)
-Definition udp_one (svc : N) (t : nat) (d : bytes) : list event * N * nat :=
+Definition EV_TFTP_FILE : N := 20%N.   (* [filename; mode; content] of a finished upload *)
+
+(* tftp is a multi-datagram protocol: a WRQ opens an upload for its source address (ip:port),
+   DATA blocks append to it, a block shorter than 512 bytes ends it and is reported with the
+   filename and mode of ITS write request.  st = the open upload of the source. *)
+Definition tftp_upload := option (bytes * bytes * bytes).
+
+(* the state change and the write-file event of one datagram (d at most one buffer long) *)
+Definition tftp_transfer (st : tftp_upload) (d : bytes) : tftp_upload * list event :=
+  match d with
+  | _ :: o :: r =>
+      if beq o 2%N then
+        (* WRQ: both strings complete -> a NEW upload replaces whatever was open *)
+        match split_delim 0%N r with
+        | Some (fname, r2) =>
+            match split_delim 0%N r2 with
+            | Some (mode, _) => (Some (fname, mode, []), [])
+            | None => (st, [])
+            end
+        | None => (st, [])
+        end
+      else if beq o 3%N then
+        (* DATA: 2 bytes block number (an empty rest is an error), then one Read of 512 *)
+        match r with
+        | [] => (st, [])
+        | _ =>
+            let data := firstn 512 (skipn 2 r) in
+            match st with
+            | None => (None, [])                                   (* no matching buffer *)
+            | Some (fname, mode, content) =>
+                if length data =? 512 then (Some (fname, mode, content ++ data), [])
+                else (None, [mkEv EV_TFTP_FILE [fname; mode; content ++ data]])
+            end
+        end
+      else (st, [])
+  | _ => (st, [])
+  end.
+
+(* one datagram: (events, return code, tokens left, upload state) *)
+Definition udp_one (svc : N) (t : nat) (st : tftp_upload) (d : bytes) : list event * N * nat * tftp_upload :=
   if beq svc SVC_TFTP then
     (* Allow is asked first: a refused datagram is neither decoded nor reported *)
     match t with
-    | O => ([], 0%N, 0)
-    | S t' => let '(es, c) := seg_obs (tftp_prog false) [d] in (es, c, t')
+    | O => ([], 0%N, 0, st)
+    | S t' => let '(es, c) := seg_obs (tftp_prog false) [d] in
+              let '(st', fe) := tftp_transfer st d in (es ++ fe, c, t', st')
     end
   else if beq svc SVC_MEMCACHED_UDP then
     let '(es, c) := seg_obs (memcached_udp_prog false (Some t) (fuel_for d)) [d] in
-    (es, c, t - Nat.min t (count_ty EV_MC_CMD es))
+    (es, c, t - Nat.min t (count_ty EV_MC_CMD es), st)
   else
     (* counterstrike, snmp: Allow is asked after the events were sent; dns has no limiter *)
-    let '(es, c) := run_impl svc [d] in (es, c, Nat.pred t).
+    let '(es, c) := run_impl svc [d] in (es, c, Nat.pred t, st).
 
-Fixpoint udp_seq (svc : N) (t : nat) (ds : list bytes) : list event * N :=
+Fixpoint udp_seq_st (svc : N) (t : nat) (st : tftp_upload) (ds : list bytes) : list event * N :=
   match ds with
   | [] => ([], 0%N)
-  | d :: r => let '(es, c, t') := udp_one svc t d in
-              let '(es2, c2) := udp_seq svc t' r in
+  | d :: r => let '(es, c, t', st') := udp_one svc t st d in
+              let '(es2, c2) := udp_seq_st svc t' st' r in
               (es ++ es2, if beq c 2%N then 2%N else c2)
   end.
+Definition udp_seq (svc : N) (t : nat) (ds : list bytes) : list event * N := udp_seq_st svc t None ds.
 
-(* reference: every datagram is reported on its own *)
-Fixpoint udp_seq_expected (svc : N) (ds : list bytes) : list event * N :=
+(* reference: every datagram is reported on its own; uploads as above, no limiter *)
+Fixpoint udp_seq_expected_st (svc : N) (st : tftp_upload) (ds : list bytes) : list event * N :=
   match ds with
   | [] => ([], 0%N)
   | d :: r => let '(es, c) := expected svc d in
-              let '(es2, c2) := udp_seq_expected svc r in
-              (es ++ es2, if beq c 2%N then 2%N else c2)
+              let '(st', fe) := if beq svc SVC_TFTP then tftp_transfer st d else (st, []) in
+              let '(es2, c2) := udp_seq_expected_st svc st' r in
+              (es ++ fe ++ es2, if beq c 2%N then 2%N else c2)
   end.
+Definition udp_seq_expected (svc : N) (ds : list bytes) : list event * N := udp_seq_expected_st svc None ds.
 
 Definition SEQ_BASE : N := 100%N.     (* service code of a sequence case = 100 + service code *)
 
